@@ -156,6 +156,22 @@ def walk(history, snaps):
         f = st.split(":")
         if f[0] == "e":
             t = apply_edits(S, D, [st], t)
+        elif f[0] == "w":
+            t += 1
+            (S if f[1] == "S" else D)[int(f[2])] = (int(f[3]), int(f[4]) % 256, int(f[5]))
+        elif f[0] == "x":
+            t += 1
+            pid = int(f[2])
+            if pid in DB:
+                a, b_ = DB[pid].split("|")
+                if f[1] == "S":
+                    a = "S:-"
+                else:
+                    b_ = "D:-"
+                if (a, b_) == ("S:-", "D:-"):
+                    DB.pop(pid)
+                else:
+                    DB[pid] = a + "|" + b_
         else:
             t += 1
             if k >= len(snaps):
@@ -172,9 +188,9 @@ def expected_conflict(strategy, s, d):
         return "S"
     if strategy == "dest":
         return "D"
-    if strategy == "rename":
+    if strategy == "rename" and s is not None and d is not None:
         return "R"
-    if s is None or d is None:          # modify/delete: the surviving version is kept
+    if s is None or d is None:          # modify/delete under newer/larger/smaller/rename: the surviving version is kept (nothing to rename)
         return "S" if d is None else "D"
     if strategy == "newer":
         return "S" if s[2] > d[2] else "D" if d[2] > s[2] else "R"
@@ -187,7 +203,7 @@ def merge_oracle(history, snaps):
     """three-way merge specification evaluated on observed snapshots.
     returns list of failures: dict(sync, path, why, klass)"""
     fails = []
-    base = {}
+    base, base_mt = {}, {}
     for (k, strat, maxdel, S, D, DB, status, pS, pD, pDB) in walk(history, snaps):
         if status == "refused":
             if (pS, pD) != (S, D):
@@ -221,21 +237,35 @@ def merge_oracle(history, snaps):
                     elif exp == "R" and not (ps_ is None and pd_ is None and cont(pS.get(4 * p + 1)) == cont(s) and cont(pD.get(4 * p + 2)) == cont(d)):
                         why = "conflict not resolved as the %s strategy prescribes (expected both kept under conflict names)" % strat
             if why:
+                # the side whose CONTENT is the last common version may still have been touched or rewritten with the same
+                # bytes: sy sees a newer mtime and counts that as a modification (it keeps no checksum of the common version)
                 klass = None
-                if s is not None and d is not None and s[0] == d[0] and s[1] != d[1]:
-                    klass = "same-size"
-                if DB.get(p):
-                    klass = "prior-rows"
-                elif b is not None and not DB.get(p):
-                    klass = "never-recorded"
+                bm = base_mt.get(p, (None, None))
+                touched_s = (not sc) and s is not None and bm[0] is not None and s[2] != bm[0]
+                touched_d = (not dc) and d is not None and bm[1] is not None and d[2] != bm[1]
+                if touched_s or touched_d:
+                    klass = "touch-counts"
                 fails.append({"sync": k, "path": p, "why": why, "klass": klass})
         for p in set(pS) | set(pD) | set(base):
             if cont(pS.get(p)) == cont(pD.get(p)):
                 if pS.get(p) is None:
-                    base.pop(p, None)
+                    base.pop(p, None); base_mt.pop(p, None)
                 else:
                     base[p] = cont(pS.get(p))
+                    base_mt[p] = (pS[p][2], pD[p][2])
     return fails
+
+
+def rows_of(DB, p):
+    """-> (source row, dest row), each (mtime, size) or None"""
+    v = DB.get(p)
+    if not v:
+        return (None, None)
+    out = []
+    for part in v.split("|"):
+        x = part.split(":", 1)[1]
+        out.append(None if x == "-" else tuple(int(y) for y in x.split("/")))
+    return tuple(out)
 
 
 def converge_oracle(history, snaps):
@@ -243,7 +273,7 @@ def converge_oracle(history, snaps):
     (one further sync allowed after renames); no version silently lost."""
     fails = []
     rows = list(walk(history, snaps))
-    base = {}
+    base, base_mt = {}, {}
     for i, (k, strat, maxdel, S, D, DB, status, pS, pD, pDB) in enumerate(rows):
         if status != "ok":
             continue
@@ -256,37 +286,42 @@ def converge_oracle(history, snaps):
                 pass                     # judged at the next sync
             else:
                 differing = []           # history continues with edits: cannot judge
-        elif differing:
-            prev_renamed = False
         for p in differing:
             if renamed and p % 4 in (1, 2):
                 continue
-            s, d = S.get(p), D.get(p)
-            klass = None
-            if s is not None and d is not None and s[0] == d[0] and s[1] != d[1]:
-                klass = "same-size"
-            elif DB.get(p):
-                klass = "prior-rows"
-            elif p in base:
-                klass = "never-recorded"
-            fails.append({"sync": k, "path": p, "why": "sides differ after a successful sync: %s vs %s" % (cont(pS.get(p)), cont(pD.get(p))), "klass": klass})
+            fails.append({"sync": k, "path": p, "why": "sides differ after a successful sync: %s vs %s" % (cont(pS.get(p)), cont(pD.get(p))), "klass": None})
         # silent loss: a version present before must survive somewhere unless superseded base or explicit loser
-        before = set(cont(e) for e in list(S.values()) + list(D.values()))
         after = set(cont(e) for e in list(pS.values()) + list(pD.values()))
         for p in sorted(set(S) | set(D)):
             s, d, b = S.get(p), D.get(p), base.get(p)
-            for v, other in ((cont(s), cont(d)), (cont(d), cont(s))):
+            rs, rd = rows_of(DB, p)
+            bm = base_mt.get(p, (None, None))
+            # a side counts as changed since the last sync when its content differs from the common version or it was
+            # rewritten/touched (new mtime): C11 leaves the notion of conflict to C12
+            ch_s = cont(s) != b or (s is not None and bm[0] is not None and s[2] != bm[0])
+            ch_d = cont(d) != b or (d is not None and bm[1] is not None and d[2] != bm[1])
+            exp = expected_conflict(strat, s, d)
+            for side, e, other, row_x, row_o in (("S", s, d, rs, rd), ("D", d, s, rd, rs)):
+                v = cont(e)
                 if v is None or v in after:
                     continue
-                superseded = (v == b and other != b)                 # the synchronised version replaced by a one-sided change
-                conflict = (cont(s) != b and cont(d) != b and cont(s) != cont(d)) and strat != "rename"
-                if not superseded and not conflict:
-                    klass = "prior-rows" if DB.get(p) else ("never-recorded" if p in base else None)
-                    fails.append({"sync": k, "path": p, "why": "version %s silently lost" % (v,), "klass": klass})
+                chosen_other = (exp == ("D" if side == "S" else "S"))
+                if (rs is None) != (rd is None):
+                    # prior state with a row for one side only: what the database can still tell
+                    ok = ((row_x is not None and e[0] == row_x[1] and e[2] <= row_x[0]) or        # still the recorded version: superseded
+                          (row_x is None and row_o is not None and other is None) or              # the only row says synchronised, the other side deleted it
+                          (other is not None and cont(other) != v and strat != "rename" and chosen_other))
+                else:
+                    superseded = (v == b and cont(other) != b)             # the synchronised version replaced by a one-sided change
+                    conflict = ch_s and ch_d and cont(s) != cont(d) and strat != "rename" and chosen_other
+                    ok = superseded or conflict
+                if not ok:
+                    fails.append({"sync": k, "path": p, "why": "version %s of the %s side silently lost (strategy %s, rows %r/%r)" % (v, "source" if side == "S" else "dest", strat, rs, rd), "klass": None})
         for p in set(pS) | set(pD) | set(base):
             if cont(pS.get(p)) == cont(pD.get(p)):
                 if pS.get(p) is None:
-                    base.pop(p, None)
+                    base.pop(p, None); base_mt.pop(p, None)
                 else:
                     base[p] = cont(pS.get(p))
+                    base_mt[p] = (pS[p][2], pD[p][2])
     return fails
